@@ -100,6 +100,14 @@ def evaluate(case):
         with warnings.catch_warnings(), np.errstate(all="ignore"):
             warnings.simplefilter("ignore")
             fl = fp.FlowPropertiesTwoPhase.from_table(dict(tb), krt, rho, phi, Sw, float(p[len(p) // 2]))
+            # the reference densities are a MAPPING: listed water-first (sorted keys: g, o, w) they name the same fluids
+            for order in (("rho_w0", "rho_g0", "rho_o0"), ("rho_g0", "rho_o0", "rho_w0")):
+                fl_o = fp.FlowPropertiesTwoPhase.from_table(dict(tb), krt, {k: rho[k] for k in order}, phi, Sw, float(p[len(p) // 2]))
+                if not np.array_equal(np.asarray(fl_o.pvt_props["alpha"], dtype=float), np.asarray(fl.pvt_props["alpha"], dtype=float),
+                                      equal_nan=True):
+                    viol.append(V("from_table/density-mapping-order", f"from_table with the reference densities listed in the key order "
+                                  f"{list(order)} tabulates another diffusivity: the densities are taken by position, not by name", case=case))
+                    break
             # the same table listed from high to low pressure: every row keeps its own saturation
             tb_r = {k: np.asarray(v)[::-1].copy() for k, v in tb.items()}
             fl_r = fp.FlowPropertiesTwoPhase.from_table(tb_r, krt, rho, phi, Sw, float(p[len(p) // 2]))
